@@ -65,7 +65,7 @@ def avgFinish (s : Value) (n : Nat) : Option Value :=
 def sdFinish (isVar : Bool) (s q : Value) (n : Nat) : Option Value :=
   match s, q with
   | .null, _ => some .null
-  | .int a, .int b => some (.real (spread n isVar (F64.ofInt a) (F64.ofInt b)))
+  | .int a, .int b => some (.real (spreadInt n isVar a b))
   | .real a, .real b => some (.real (spread n isVar a b))
   | _, _ => none
 
